@@ -42,6 +42,8 @@ func (tp *TaskPool) fork(f func()) bool {
 		}()
 		return true
 	}
+	// not forked: give the slot back (every caller of fork relies on this).
+	atomic.AddInt64(&tp.concurrent, -1)
 	return false
 }
 
@@ -63,7 +65,6 @@ func (tp *TaskPool) Go(f func()) {
 	}
 
 	// Else push the new task into chan/queue.
-	atomic.AddInt64(&tp.concurrent, -1)
 	select {
 	case tp.chQqueue <- f:
 	case <-tp.chClose:
